@@ -23,7 +23,19 @@ def _rng(c: Any, lo: int, hi: int) -> Any:
     return SymBool(z3.And(c.t >= lo, c.t <= hi))
 
 
+class B64Char(SymInt):
+    """a byte produced by _to_b64(v), 0 <= v < 64: remembers v, so that
+    decoding it again does not have to invert the alphabet if-chain"""
+    __slots__ = ('src',)
+
+    def __init__(self, t: Any, src: Any) -> None:
+        SymInt.__init__(self, t)
+        self.src = src
+
+
 def _is_b64(c: Any) -> Any:
+    if isinstance(c, B64Char):
+        return True
     if isinstance(c, int):
         return (48 <= c <= 57) or (65 <= c <= 90) or (97 <= c <= 122) or c in (43, 47)
     t = c.t
@@ -32,6 +44,8 @@ def _is_b64(c: Any) -> Any:
 
 
 def _from_b64(c: Any) -> Any:
+    if isinstance(c, B64Char):
+        return c.src
     if isinstance(c, int):
         if 65 <= c <= 90:
             return c - 65
@@ -51,20 +65,40 @@ def _to_b64(v: Any) -> Any:
     if isinstance(v, int):
         return b'ABCDEFGHIJKLMNOPQRSTUVWXYZabcdefghijklmnopqrstuvwxyz0123456789+/'[v]
     t = v.t
-    return SymInt(z3.If(t < 26, t + 65, z3.If(t < 52, t + 71, z3.If(t < 62, t - 4,
-                                                                  z3.If(t == 62, 43, 47)))))
+    return B64Char(z3.If(t < 26, t + 65, z3.If(t < 52, t + 71, z3.If(t < 62, t - 4,
+                                                                   z3.If(t == 62, 43, 47)))), v)
+
+
+def _divmod(x: Any, k: int) -> tuple:
+    """x // k, x % k for x >= 0 as fresh variables with linear defining
+    constraints (x == q*k + r, 0 <= r < k, q >= 0): keeps the path conditions
+    inside linear integer arithmetic instead of nested div/mod terms"""
+    if isinstance(x, int):
+        return x // k, x % k
+    from .core import cur
+    eng = cur()
+    key = (x.t.get_id(), k)
+    cache = eng.path_cache
+    hit = cache.get(key)
+    if hit is not None:
+        return hit
+    q = z3.Int('dq%d' % eng.nfresh)
+    eng.nfresh += 1
+    r = z3.Int('dr%d' % eng.nfresh)
+    eng.nfresh += 1
+    eng.solver.add(x.t == q * k + r, r >= 0, r < k, q >= 0)
+    eng.model = None
+    res = (SymInt(q), SymInt(r), x)  # keep x alive so its term id is not reused
+    cache[key] = res
+    return res
 
 
 def _div(x: Any, k: int) -> Any:
-    if isinstance(x, int):
-        return x // k
-    return SymInt(x.t / z3.IntVal(k))
+    return _divmod(x, k)[0]
 
 
 def _mod(x: Any, k: int) -> Any:
-    if isinstance(x, int):
-        return x % k
-    return SymInt(x.t % z3.IntVal(k))
+    return _divmod(x, k)[1]
 
 
 def _err(pos: int, msg: str) -> UnicodeDecodeError:
